@@ -132,6 +132,9 @@ def kernel_template(kind, wn, ww):
     return [ww] * 5, [("subi", "%b0", "%b2", ww), ("subi", "%b1", "%b3", ww), ("muli", "%v1", "%v2", ww), ("addi", "%b4", "%v3", ww)]
 
 
+CANON_OF = {}       # index of a single re-pointing in the list nearmiss_bodies returns -> the canonical body it was derived from
+
+
 def nearmiss_bodies(rng, n_double):
     """the canonical wiring of every kernel (also with operands that already have the result width) with ONE operand slot re-pointed at
     another value of the same width - all of them - and n_double random double re-pointings: bodies that contain the same kinds of
@@ -161,6 +164,7 @@ def nearmiss_bodies(rng, n_double):
             ops = [list(t) for t in tmpl]
             ops[j][slot] = cnd
             out.append(render(widths, ops, wn))
+            CANON_OF[len(out) - 1] = render(widths, [list(t) for t in tmpl], wn)
     for _ in range(n_double):
         kind = rng.choice(["mac", "mac_ext", "qmac_ext", "qmac_same"])
         wn, ww = rng.choice(combos)
@@ -292,6 +296,39 @@ def run(pid: str, tier: str, seed: int, selftest=False, replay=None) -> int:
             ia, ib = finish_image(export_body(ga.body.block, wmap)), finish_image(export_body(gb.body.block, wmap))
             cases.append({"name": f"{name}|{pipe}", "A": ia, "B": ib, "argdom": domains(widths, 125 if name.startswith("small:") else 320), "opqdom": [[0]],
                           "text": text, "after": str(gb), "pipe": pipe})
+    # history inside one pass run: a module whose first layer is the canonical body of a kernel and whose second layer is a re-pointed one
+    # with the same operations and types (what the pass remembers from the first must not decide the second)
+    from xdsl.dialects import linalg as _lg
+    nm = nearmiss_bodies(random.Random(seed), 0)
+    for q, (widths, lines, yv) in enumerate(nm):
+        if q not in CANON_OF or (quick and q % 2):
+            continue
+        cw, cl, cy = CANON_OF[q]
+        t0, t1 = generic_text(cw, cl, cy), generic_text(widths, lines, yv)
+        text = t0[:t0.rindex("}")].rstrip() + "\n  " + t1[t1.index("func.func"):t1.rindex("}")].replace("@f(", "@g(", 1).rstrip() + "\n}\n"
+        name = f"layers:{seed}:{q}"
+        try:
+            src = repo.parse(text)
+            src.verify()
+        except Exception as e:
+            raise MachineryError(f"generator produced invalid two-layer module {name}: {e}\n{text}")
+        m = src.clone()
+        try:
+            repo.run_pipeline(m, "convert-linalg-to-kernel")
+        except Exception as e:
+            rep.evaluations += 1
+            rep.violation(name, f"convert-linalg-to-kernel raised {type(e).__name__}: {str(e)[:200]}", {"source": text})
+            continue
+        ga = [o for o in src.walk() if isinstance(o, _lg.GenericOp)]
+        gb = [o for o in m.walk() if isinstance(o, _lg.GenericOp)]
+        if len(ga) != 2 or len(gb) != 2:
+            rep.violation(name, "a layer disappeared", {"source": text, "after": str(m)[:3000]})
+            continue
+        for li in (0, 1):
+            ia, ib = finish_image(export_body(ga[li].body.block, wmap)), finish_image(export_body(gb[li].body.block, wmap))
+            ws = cw if li == 0 else widths
+            cases.append({"name": f"{name}#layer{li}|convert-linalg-to-kernel", "A": ia, "B": ib, "argdom": domains(ws, 125), "opqdom": [[0]],
+                          "text": text, "after": str(gb[li]), "pipe": "convert-linalg-to-kernel"})
     rep.extra["bodies_recognised_as_kernels"] = recognised
     # rescale expansion at true widths with small values (no overflow anywhere)
     rcases = []
